@@ -2,6 +2,7 @@
 // Built with -fsanitize=thread: every TSan report is turned into a violation key by the driver (monitors/props_threads.py);
 // the functional monitors here decide "same results as some sequential order" on recorded histories.
 #include "planners_common.h"
+#include <cstring>
 #include <ompl/base/goals/GoalLazySamples.h>
 #include <ompl/datastructures/NearestNeighborsGNAT.h>
 #include <ompl/util/VerifHooks.h>
@@ -59,10 +60,19 @@ namespace hook
             tl.state = splitmix(g_seed.load(std::memory_order_relaxed) ^ (0x9e37ULL * (tl.ordinal + 1)));
         }
         long s = g_slot.fetch_add(1, std::memory_order_relaxed);
+        static const bool dump = getenv("VERIF_DUMP_YIELDS") != nullptr;   // debugging aid: the first events of every solve()
+        if (dump && s < 40) fprintf(stderr, "yield %ld thread %d %s\n", s, tl.ordinal, id);
         if (s < LOGN) g_log[s].store(((uint32_t)tl.ordinal << 24) | pointId(id), std::memory_order_relaxed);
         if (!g_perturb.load(std::memory_order_relaxed)) return;
         tl.state = splitmix(tl.state);
         unsigned r = tl.state % 100;
+        // start-up points (reached once per solve(), while the other thread is just starting too): a long delay in half of the
+        // visits lets the other thread run through a whole round (find a path in the existing roadmap, register it) first
+        if (r < 50 && strstr(id, "_start") != nullptr)
+        {
+            usleep(200 + (tl.state >> 8) % 5000);
+            return;
+        }
         if (r < 55) return;
         if (r < 80) sched_yield();
         else usleep(1 + (tl.state >> 8) % (r < 95 ? 20 : 200));
